@@ -3,7 +3,7 @@ CONSTANTS
   UseStaticCfg = TRUE
   StaticCfg <- DefaultCfg
   Dev = {"RefundTruncatedDust"}
-  Family = "econ"
+  Family = "valset"
   MaxLen = 40
   Amts = {10, 101, 7, 5000}
   Fees = {0, 3, 1}
@@ -24,5 +24,5 @@ CONSTANTS
   EmitScripts = TRUE
 CONSTRAINT Emit
 INVARIANT NoStepViolation
-INVARIANT Solvency
+
 CHECK_DEADLOCK FALSE
